@@ -25,7 +25,7 @@ use jrsonnet_evaluator::{
 	gc::WithCapacityExt as _,
 	manifest::{JsonFormat, ManifestFormat, StringFormat},
 	rustc_hash::FxHashMap,
-	stack::set_stack_depth_limit,
+	stack::limit_stack_depth,
 	tla::TlaArg,
 	trace::{CompactFormat, PathResolver, TraceFormat},
 	AsPathLike, FileImportResolver, IStr, ImportResolver, Result, State, Val,
@@ -108,6 +108,7 @@ pub struct VM {
 	manifest_format: Box<dyn ManifestFormat>,
 	trace_format: Box<dyn TraceFormat>,
 	tla_args: FxHashMap<IStr, TlaArg>,
+	max_stack: Option<usize>,
 }
 impl VM {
 	fn replace_import_resolver(&self, resolver: impl ImportResolver) {
@@ -146,6 +147,7 @@ pub extern "C" fn jsonnet_make() -> *mut VM {
 		manifest_format: Box::new(JsonFormat::default()),
 		trace_format: Box::new(CompactFormat::default()),
 		tla_args: FxHashMap::new(),
+		max_stack: None,
 	}))
 }
 
@@ -158,8 +160,9 @@ pub extern "C" fn jsonnet_destroy(vm: Box<VM>) {
 
 /// Set the maximum stack depth.
 #[no_mangle]
-pub extern "C" fn jsonnet_max_stack(_vm: &VM, v: c_uint) {
-	set_stack_depth_limit(v as usize);
+pub extern "C" fn jsonnet_max_stack(vm: &mut VM, v: c_uint) {
+	// The limit belongs to this VM, it is applied for the duration of its evaluations
+	vm.max_stack = Some(v as usize);
 }
 
 /// Set the number of objects required before a garbage collection cycle is allowed.
@@ -249,6 +252,7 @@ pub unsafe extern "C" fn jsonnet_evaluate_file(
 	let filename = unsafe { parse_path(CStr::from_ptr(filename)) };
 	// Nested imports, ext and tla code are evaluated using the entered state
 	let _entered = vm.state.try_enter();
+	let _stack_limit = vm.max_stack.map(limit_stack_depth);
 	match vm
 		.state
 		.import(filename)
@@ -286,6 +290,7 @@ pub unsafe extern "C" fn jsonnet_evaluate_snippet(
 	let snippet = unsafe { CStr::from_ptr(snippet) };
 	// Nested imports, ext and tla code are evaluated using the entered state
 	let _entered = vm.state.try_enter();
+	let _stack_limit = vm.max_stack.map(limit_stack_depth);
 	match vm
 		.state
 		.evaluate_snippet(filename.to_str().unwrap(), snippet.to_str().unwrap())
@@ -346,6 +351,7 @@ pub unsafe extern "C" fn jsonnet_evaluate_file_multi(
 	let filename = unsafe { parse_path(CStr::from_ptr(filename)) };
 	// Nested imports, ext and tla code are evaluated using the entered state
 	let _entered = vm.state.try_enter();
+	let _stack_limit = vm.max_stack.map(limit_stack_depth);
 	match vm
 		.state
 		.import(filename)
@@ -377,6 +383,7 @@ pub unsafe extern "C" fn jsonnet_evaluate_snippet_multi(
 	let snippet = unsafe { CStr::from_ptr(snippet) };
 	// Nested imports, ext and tla code are evaluated using the entered state
 	let _entered = vm.state.try_enter();
+	let _stack_limit = vm.max_stack.map(limit_stack_depth);
 	match vm
 		.state
 		.evaluate_snippet(filename.to_str().unwrap(), snippet.to_str().unwrap())
@@ -432,6 +439,7 @@ pub unsafe extern "C" fn jsonnet_evaluate_file_stream(
 	let filename = unsafe { parse_path(CStr::from_ptr(filename)) };
 	// Nested imports, ext and tla code are evaluated using the entered state
 	let _entered = vm.state.try_enter();
+	let _stack_limit = vm.max_stack.map(limit_stack_depth);
 	match vm
 		.state
 		.import(filename)
@@ -463,6 +471,7 @@ pub unsafe extern "C" fn jsonnet_evaluate_snippet_stream(
 	let snippet = unsafe { CStr::from_ptr(snippet) };
 	// Nested imports, ext and tla code are evaluated using the entered state
 	let _entered = vm.state.try_enter();
+	let _stack_limit = vm.max_stack.map(limit_stack_depth);
 	match vm
 		.state
 		.evaluate_snippet(filename.to_str().unwrap(), snippet.to_str().unwrap())
